@@ -73,6 +73,9 @@ type (
 		subDeregister func()
 		activeMu      sync.Mutex
 
+		// Received packets are handled in the order they were sent in.
+		packetRunner orderedRunner
+
 		packetQueue *clientPacketQueue
 		sendBuffers func(volatile, forceSend bool, ackID *uint64, buffers ...[]byte)
 
